@@ -3,6 +3,7 @@
 
 pub mod be;
 pub mod cmapenc;
+pub mod gposenc;
 pub mod read;
 pub mod sfnt;
 pub mod tables;
